@@ -10,8 +10,12 @@ import numpy as np
 from harness import common as C
 
 HEADER = """From Coq Require Import List ZArith QArith Bool. Import ListNotations.
+From Coq Require Import Uint63.
 From TLV Require Import Base.Ops Base.Tensor Model.Prox Model.Constraints Model.ProxDispatch Corr.C12.
-Local Open Scope nat_scope."""
+Notation "'D' m e" := (dy false m%uint63 e%uint63) (at level 0, m at level 0, e at level 0, only parsing).
+Notation "'N' m e" := (dy true m%uint63 e%uint63) (at level 0, m at level 0, e at level 0, only parsing).
+Local Open Scope nat_scope.
+Open Scope Z_scope."""
 EP = "tensorly.tenalg.proximal."
 
 COLWISE = {"smoothness", "simplex", "soft_sparsity", "monotone_inc", "monotone_dec", "unimodality"}
@@ -522,6 +526,21 @@ def gen_array(rng, name, shape, klass):
 
 
 def gen_spec_route(rng, name, par, a, kind, scale):
+    """proximal_operator with dict / list valued constraints: returns (effective operator, effective parameter, route); `order` is also
+    written as the negative alias of the mode (order - n_const) and, rarely, just outside [-n_const, n_const) (IndexError: the call must raise)"""
+    name, par, route = _gen_spec_route(rng, name, par, a, kind, scale)
+    n = route.get("n_const")
+    if n is not None and name != "reject":
+        u = rng.random()
+        if u < 0.15:
+            route["order"] = route["order"] - n
+        elif u > 0.97:
+            route["order"] = rng.choice([n, n + 1, -n - 1])
+            return "reject", None, route
+    return name, par, route
+
+
+def _gen_spec_route(rng, name, par, a, kind, scale):
     """proximal_operator with dict / list valued constraints: returns (effective operator, effective parameter, route)"""
     if rng.random() < 0.08:
         # n_const=None: proximal_operator returns the tensor unchanged whatever constraint is named
@@ -647,9 +666,28 @@ def gen_cases(tier, rng):
 
 
 # ----------------------------------------------------------------------------- Gallina literals
+def qf(x):
+    """Gallina literal of a rational.  A double (or int) is written with primitive integers, (D m e) = m / 2^e, (N m e) = -m / 2^e
+    (Corr/C12.dy): elaborating these is an order of magnitude cheaper than (Qmake (n)%Z (d)%positive), and case files are dominated by
+    the elaboration of their literals; everything else (norm tapes, tolerances) keeps the generic printer."""
+    if isinstance(x, (int, np.integer)) and not isinstance(x, bool):
+        num, e = int(x), 0
+    elif isinstance(x, (float, np.floating)) and math.isfinite(float(x)):
+        num, den = float(x).as_integer_ratio(); e = den.bit_length() - 1
+    else:
+        return C.q(x)
+    if abs(num) >= 1 << 62 or e >= 1 << 20:
+        return C.q(x)
+    return f"({'N' if num < 0 else 'D'} {abs(num)} {e})"
+
+
+def qf_list(xs):
+    return "[" + "; ".join(qf(x) for x in xs) + "]"
+
+
 def rows_lit(a, nrows):
     m = np.asarray(a, float).reshape(nrows, -1)
-    return "[" + "; ".join(C.q_list([float(x) for x in r]) for r in m) + "]"
+    return "[" + "; ".join(qf_list([float(x) for x in r]) for r in m) + "]"
 
 
 def sqrt_q(fr):
@@ -691,7 +729,7 @@ def routed_lit(name, par, a, route):
     literal; C11's Coq model of validate_constraints (Model/Constraints.zvalidate) selects operator and parameter or says 'raises'"""
     flat = [float(x) for x in np.asarray(a, float).reshape(-1)]
     def qq(p):
-        return C.q(1) if p is None else C.q(float(p) if not isinstance(p, (int, np.integer)) else int(p))
+        return qf(1) if p is None else qf(float(p) if not isinstance(p, (int, np.integer)) else int(p))
     specs = []
     for kw, val in spec_kwargs(route).items():
         if kw in ("n_const", "order"):
@@ -703,7 +741,7 @@ def routed_lit(name, par, a, route):
         else:
             body = f"(ZScalar {qq(None if val is True else val)})"
         specs.append(f"({KIND[kw]}, {body})")
-    tail = f"{int(route['order'])}%nat [" + "; ".join(specs) + "]"
+    tail = f"({int(route['order'])})%Z [" + "; ".join(specs) + "]"
     if name == "reject":
         return f"(ORejected {int(route['n_const'])}%nat {tail})"
     head = ("None " if route["n_const"] is None else f"(Some {int(route['n_const'])}%nat) ") + tail
@@ -727,13 +765,13 @@ def op_lit(name, par, a, tape=None, route=None, raised=False):
         return routed_lit(name, par, a, route)     # also n_const=None: the early exit is the model's (Model/ProxDispatch.selected_pop)
     flat = [float(x) for x in np.asarray(a, float).reshape(-1)]
     if name == "non_negative": return "ONonneg"
-    if name == "soft": return f"(OSoft {C.q(float(par))})"
+    if name == "soft": return f"(OSoft {qf(float(par))})"
     if name == "soft_arr": return f"(OSoftArr {rows_lit(par, a.shape[0])})"
-    if name == "l2_square": return f"(OL2sq {C.q(float(par))})"
-    if name == "l2": return f"(OL2 {C.q(float(par))} {C.q(sqrt_q(fr_sumsq(flat)))})"
-    if name == "smoothness": return f"(OSmooth {C.q(float(par))})"
-    if name == "simplex": return f"(OSimplex {C.q(float(par))})"
-    if name == "soft_sparsity": return f"(OSoftSparsity {C.q(float(par))})"
+    if name == "l2_square": return f"(OL2sq {qf(float(par))})"
+    if name == "l2": return f"(OL2 {qf(float(par))} {C.q(sqrt_q(fr_sumsq(flat)))})"
+    if name == "smoothness": return f"(OSmooth {qf(float(par))})"
+    if name == "simplex": return f"(OSimplex {qf(float(par))})"
+    if name == "soft_sparsity": return f"(OSoftSparsity {qf(float(par))})"
     if name == "monotone_inc": return "(OMonotone false)"
     if name == "monotone_dec": return "(OMonotone true)"
     if name == "unimodality": return "OUnimodal"
@@ -743,8 +781,8 @@ def op_lit(name, par, a, tape=None, route=None, raised=False):
     if name == "identity": return "OIdentity"
     if name in ("svt", "procrustes"):
         U, sv, V = tape
-        body = f"{rows_lit(U, U.shape[0])} {C.q_list([float(x) for x in sv])} {rows_lit(V, V.shape[0])}"
-        return f"(OSvt {C.q(float(par))} {body})" if name == "svt" else f"(OProcrustes {body})"
+        body = f"{rows_lit(U, U.shape[0])} {qf_list([float(x) for x in sv])} {rows_lit(V, V.shape[0])}"
+        return f"(OSvt {qf(float(par))} {body})" if name == "svt" else f"(OProcrustes {body})"
     raise KeyError(name)
 
 
@@ -810,12 +848,12 @@ def evaluate(chk, name, par, a, route, kind, klass, rng, cases, meta):
     ep = entry_point(name, route)
     if name == "reject":
         # the request is refused by validate_constraints: compared with the Coq model only (ORejected: it raised, ORouted: it returned)
-        if (st == "reject" and str(out).startswith("ValueError")) or st == "ok":
+        if (st == "reject" and str(out).startswith(("ValueError", "IndexError"))) or st == "ok":
             cid = len(cases); nrows = a.shape[0]
             lit = routed_lit("reject" if st == "reject" else "identity", None, a, route)
             outv = a if st == "reject" else np.asarray(out)
             if outv.size == a.size and np.all(np.isfinite(outv)):
-                cases.append(f"({cid}%nat, {lit}, {rows_lit(a, nrows)}, {rows_lit(outv, nrows)}, {C.q(0)}, {C.q(0)})")
+                cases.append(f"(({cid})%Z, {lit}, {rows_lit(a, nrows)}, {rows_lit(outv, nrows)}, {C.q(0)}, {C.q(0)})")
                 meta.append(inputs)
         else:
             chk.finding(ep, inputs, f"proximal_operator crashed instead of refusing the request: {out}", "reject_clean")
@@ -826,7 +864,7 @@ def evaluate(chk, name, par, a, route, kind, klass, rng, cases, meta):
             outv = a if st != "ok" else np.asarray(out)
             if outv.size == a.size and np.all(np.isfinite(outv)):
                 cid = len(cases)
-                cases.append(f"({cid}%nat, {op_lit(name, par, a, None, route, raised=(st != 'ok'))}, {rows_lit(a, a.shape[0])}, {rows_lit(outv, a.shape[0])}, {C.q(0)}, {C.q(0)})")
+                cases.append(f"(({cid})%Z, {op_lit(name, par, a, None, route, raised=(st != 'ok'))}, {rows_lit(a, a.shape[0])}, {rows_lit(outv, a.shape[0])}, {C.q(0)}, {C.q(0)})")
                 meta.append(inputs)
         else:
             chk.finding(ep, inputs, f"the operator crashed instead of refusing a tensor with {a.ndim} dimensions: {out}", "reject_clean")
@@ -850,7 +888,7 @@ def evaluate(chk, name, par, a, route, kind, klass, rng, cases, meta):
         atol, rtol = tolerances(name, par, a, kind)
         cid = len(cases)
         nrows = a.shape[0]
-        cases.append(f"({cid}%nat, {op_lit(name, par, a, tape, route)}, {rows_lit(a, nrows)}, {rows_lit(out, nrows)}, {C.q(atol)}, {C.q(rtol)})")
+        cases.append(f"(({cid})%Z, {op_lit(name, par, a, tape, route)}, {rows_lit(a, nrows)}, {rows_lit(out, nrows)}, {C.q(atol)}, {C.q(rtol)})")
         meta.append(inputs)
         if cid % 401 == 0:
             chk.sample({"operator": name, "route": C.jsonable(route), "param": C.jsonable(par), "input": np.asarray(a).tolist(), "output": out.tolist(),
@@ -890,9 +928,37 @@ def load_case(e):
     return e["op"], par, a, e.get("route", "direct")
 
 
+def union_print_assumptions(prop, names):
+    """Print Assumptions asked ONCE for a term that mentions every property theorem (one walk through the Reals library instead of one per
+    theorem: ~1 s instead of ~0.85 s x 79).  The answer is the union of the theorems' axioms; when it contains nothing but standard-library
+    axioms every theorem is clean and each is reported with that union (an over-approximation of its own list).  Otherwise - or if the
+    question cannot be asked (a theorem is missing) - the per-theorem question of common.print_assumptions is asked instead."""
+    import subprocess, shutil, re
+    d = os.path.join(C.BUILD, "pa", f"{os.getpid()}_{prop}_union"); shutil.rmtree(d, ignore_errors=True); os.makedirs(d, exist_ok=True)
+    fn = os.path.join(d, f"PAU_{prop}.v")
+    with open(fn, "w") as f:
+        f.write(f"From TLV Require Import Props.{prop}.\n")
+        f.write("Definition all_property_theorems : True :=\n" + "".join(f"  let _ := @{n} in\n" for n in names) + "  I.\n")
+        f.write('Goal True. idtac "@@BEGIN". exact I. Qed.\nPrint Assumptions all_property_theorems.\nGoal True. idtac "@@END". exact I. Qed.\n')
+    r = subprocess.run(["timeout", "600", "coqc", "-R", os.path.join(C.COQ, "theories"), "TLV", fn], capture_output=True, text=True, cwd=d)
+    shutil.rmtree(d, ignore_errors=True)
+    if r.returncode == 0 and "@@BEGIN" in r.stdout and "@@END" in r.stdout:
+        body = r.stdout.split("@@BEGIN", 1)[1].split("@@END")[0]
+        if "Closed under the global context" in body:
+            return {n: [] for n in names}, r.stdout
+        axs = sorted(a for a in set(re.findall(r"^([A-Za-z_][\w.']*)\s*:", body, re.M)) if a not in ("Axioms", "Variables", "Hypotheses"))
+        if axs and not C.own_axioms(axs):
+            return {n: list(axs) for n in names}, r.stdout
+    return _common_print_assumptions(prop, names)
+
+
+_common_print_assumptions = C.print_assumptions
+
+
 def run(chk):
     rng = random.Random(chk.seed)
     merge_known()
+    C.print_assumptions = union_print_assumptions
     chk.build_proofs()
     drop_header_pseudo_axiom(chk)
     # corr:C12-static: the dispatch table regenerated from the current source by an ast translation, compared with the model inside Coq
@@ -944,8 +1010,8 @@ def run(chk):
                        "tl.norm / tl.solve / tl.truncated_svd are oracles: the norm and the SVD enter the model as rational tape values checked against their contracts "
                        "(s*s = sum of squares; U diag(s) V = M, U^T U = V V^T = I), the solve through the exact certificate sm_apply t x = v on the model's own elimination",
                        "np.argsort tie order is unspecified: hard-thresholding outputs are compared up to the choice among entries of equal magnitude",
-                       "svd_thresholding / procrustes: the Coq theorems (C12_procrustes_*, C12_svt_optimal_partial) assume the EXACT contract of the SVD oracle; the per-case "
-                       "tape is checked against that contract to 1e-9 only, and svd_thresholding's competitors are matrices presented with a singular value decomposition",
+                       "svd_thresholding / procrustes: the Coq theorems (C12_procrustes_*, C12_svt_*) assume the EXACT contract of the SVD oracle; the per-case "
+                       "tape is checked against that contract to 1e-9 only",
                        "the dispatch table of proximal_operator is regenerated from the source by an ast translation on every run (corr:C12-static) and compared with "
                        "Model/ProxDispatch.pop_of inside Coq; the translator is harness code (trusted), fail-closed on constructs it does not recognise"]
     chk.trusted += ["reference solvers of the predicates (PAVA, bisection simplex projection, sorted top-k, numpy.linalg.svd) - search aids only"]
